@@ -279,7 +279,7 @@ def check_prev(ctx, rep, rule='T-prev'):
         return None
     n = 0
     done = set()
-    pp_atom = [a for a in tab.atoms if a.startswith('discr(') and 'upgrade' in a]
+    pp_atom = [a for a in tab.atoms if a == 'discr(prev.prev_in_result)']
     for val, out, p in rows:
         has_prev = bool(val.get('has_prev', 1))
         if not has_prev:
@@ -320,23 +320,8 @@ def classify_weak(val, p):
             held = p.final.mem.get(a[1])
             if held is None:
                 return 'other:unknown-local'
-            h = strip_upd(held)
-            # (Weak::upgrade(&prev.prev_in_result) as Some).0
-            if h[0] == 'field' and str(h[2]) == '0' and strip_upd(h[1])[0] == 'variant' and strip_upd(h[1])[2] == 'Some':
-                x = strip_upd(strip_upd(h[1])[1])
-                if x[0] in ('pcall', 'call') and x[1].endswith('::upgrade') and len(x[2]) == 1:
-                    r = strip_upd(x[2][0])
-                    if r[0] == 'ref' and r[1][1] == (('f', 'prev_in_result'),) and r[1][0][0] == 'ext':
-                        cellp = strip_upd(r[1][0][1])
-                        if cellp[0] == 'cell':
-                            rr = strip_upd(cellp[1])
-                            if rr[0] == 'ref' and rr[1][0][0] == 'ext':
-                                return '%s.prev_in_result' % obj_root(rr[1][0][1], ALIAS_CF)
-            return 'other:' + show(noepoch(h))
-        s = show(noepoch(a))
-        if s == '(maybe_prev as Some).0':
-            return 'prev'
-        return 'other:' + s
+            return obj_root(held, ALIAS_CF)
+        return obj_root(a, ALIAS_CF)
     if v[0] in ('pcall', 'call') and v[1].endswith('Weak::<T>::new'):
         return 'cleared'
     return 'other:' + show(noepoch(v))
